@@ -341,13 +341,14 @@ def check(ctx):
     base = model.mod(BASE)
     for nm in ('get_size_range', 'get_restricted_to_range'):
         g = model.func(BASE, 'Compiler.' + nm)
-        ok = any(isinstance(n_, ast.Call) and sem.callee_name(n_) == 'lookup_value' for n_ in ast.walk(g)) and \
-            any(isinstance(n_, ast.Compare) and isinstance(n_.ops[0], (ast.In, ast.NotIn)) and 'EXTENSION_MARKER' in names_in(n_.left) for n_ in ast.walk(g))
+        fam = flow.local_reach(model, g, limit=2)      # the function and the helpers a refactoring may have extracted from it
+        ok = any(isinstance(n_, ast.Call) and sem.callee_name(n_) == 'lookup_value' for g2 in fam for n_ in ast.walk(g2)) and \
+            any(isinstance(n_, ast.Compare) and isinstance(n_.ops[0], (ast.In, ast.NotIn)) and 'EXTENSION_MARKER' in names_in(n_.left) for g2 in fam for n_ in ast.walk(g2))
         ctx.instance('C11.R5', 'base Compiler.%s resolves value references and reports the extension marker' % nm, 'ok' if ok else 'VIOLATION', node=g, file=BASE)
         if not ok:
             ctx.violation('C11.R5', BASE, g, Model.qual(g), '%s no longer resolves value references / the extension marker' % nm, stmt=nm)
     g = model.func(BASE, 'Compiler.get_restricted_to_range')
-    ok = "['named-numbers']" in ast.unparse(g)
+    ok = any("['named-numbers']" in ast.unparse(g2) for g2 in flow.local_reach(model, g, limit=2))
     ctx.instance('C11.R5', 'get_restricted_to_range resolves named numbers', 'ok' if ok else 'VIOLATION', node=g, file=BASE)
     if not ok:
         ctx.violation('C11.R5', BASE, g, Model.qual(g), 'named-number bounds are no longer resolved', stmt='named numbers')
